@@ -13,11 +13,12 @@ Env(name, cond) == Assert(cond, <<"driver violated environment assumption", name
 IsEvent(e) == l <= Len(TraceLog) /\ TraceLog[l].ev = e /\ l' = l + 1
 Rec == TraceLog[l]
 Range(s) == {s[i] : i \in DOMAIN s}
-TInit == l = 1 /\ tid = -1
-TReset == IsEvent("Reset") /\ tid' = Rec.tid
+\* (the life-cycle variables of AssetLayout are bound by AssetLayout_MBT, not by these records)
+TInit == MInit0 /\ l = 1 /\ tid = -1
+TReset == IsEvent("Reset") /\ tid' = Rec.tid /\ UNCHANGED mvars
 \* (a read past the end yields <<>>, so a wrong layout fails the clause instead of stopping TLC)
 At(bytes, off, w) == IF off >= 0 /\ off + w <= Len(bytes) THEN SubSeq(bytes, off + 1, off + w) ELSE <<>>
-TAnim == /\ IsEvent("Anim") /\ UNCHANGED tid
+TAnim == /\ IsEvent("Anim") /\ UNCHANGED <<tid, mvars>>
          /\ Env("supported version", <<Rec.ver[1], Rec.ver[2]>> \in Versions)
          /\ LET ver == <<Rec.ver[1], Rec.ver[2]>> IN
             /\ Chk("anim: size for this shape and version", Rec.size = AnimSize(ver, Rec.emote, Rec.joints, Rec.ncons))
@@ -31,12 +32,12 @@ TAnim == /\ IsEvent("Anim") /\ UNCHANGED tid
          /\ Chk("anim: parse(serialise(model)) differs from the model", Rec.rt_model)
          /\ Chk("anim: exactly representable values do not survive", Rec.rt_exact)
          /\ Chk("anim: re-serialisation differs", Rec.rt_bytes)
-TMesh == /\ IsEvent("Mesh") /\ UNCHANGED tid
+TMesh == /\ IsEvent("Mesh") /\ UNCHANGED <<tid, mvars>>
          /\ Chk("mesh: segments placed back to back in canonical order", Placed(Range(Rec.segs), Rec.body))
          /\ Chk("mesh: parse(serialise(model)) differs from the model", Rec.rt_model)
          /\ Chk("mesh: exactly representable values / shapes do not survive", Rec.rt_exact)
          /\ Chk("mesh: re-serialisation differs", Rec.rt_bytes)
 TNext == TReset \/ TAnim \/ TMesh
-TraceSpec == TInit /\ [][TNext]_<<l, tid>>
+TraceSpec == TInit /\ [][TNext]_<<l, tid, mvars>>
 TraceAccepted == PrintT("TRACE_REACHED " \o ToString(TLCGet("stats").diameter - 1) \o " OF " \o ToString(Len(TraceLog)))
 ====
